@@ -18,6 +18,12 @@ RULE = (
     "compared every cycle; non-trivial = an accepted alloc or free with count > 1 whose identifiers wrap from "
     "entries-1 to 0 AND an overflowing alloc or underflowing free was attempted (and refused)"
 )
+RULE += (
+    "  In one case of three a SECOND, independent caller (its own transaction) of one exclusive method (alloc / free) requests "
+    "in some of the cycles in which the first caller does, with the same arguments: at most one of the two may be served "
+    "and the outcome must be that of a single request."
+)
+
 ASSUMPTIONS = [
     "amaranth.sim.Simulator is the trusted execution model",
     "count is drawn from range(max+1), the method's layout; with_validate_arguments=False is only driven with counts "
